@@ -4,6 +4,7 @@ lower bound: it succeeds exactly when no shared path carries two different atoms
 result carries exactly the information of both arguments, whatever the argument order.
 -/
 import Pfl.Model.Feature
+import Pfl.Proofs.FeatureLemmas
 namespace Pfl
 namespace FS
 
@@ -35,22 +36,198 @@ inductive Agree : FS → FS → Prop
 /-- two structures conflict when some path carries two different atoms -/
 def Conflict (a b : FS) : Prop := ∃ p v w, (p, v) ∈ facts a ∧ (p, w) ∈ facts b ∧ v ≠ w
 
+open Pfl.FS.Lem in
+theorem mem_factsL_mem (fs : List (String × FS)) (p : List String) (v : String) :
+    (p, v) ∈ facts.factsL fs ↔ ∃ f x q, (f, x) ∈ fs ∧ (q, v) ∈ facts x ∧ p = f :: q := by
+  induction fs with
+  | nil => simp [facts.factsL]
+  | cons e rest ih =>
+    obtain ⟨g, y⟩ := e
+    simp only [facts.factsL, List.mem_append, List.mem_map, ih, List.mem_cons]
+    constructor
+    · rintro (⟨⟨q, w⟩, hq, heq⟩ | ⟨f, x, q, hm, hq, rfl⟩)
+      · simp only [Prod.mk.injEq] at heq
+        obtain ⟨rfl, rfl⟩ := heq
+        exact ⟨g, y, q, Or.inl rfl, hq, rfl⟩
+      · exact ⟨f, x, q, Or.inr hm, hq, rfl⟩
+    · rintro ⟨f, x, q, hm | hm, hq, rfl⟩
+      · cases hm
+        exact Or.inl ⟨(q, v), hq, rfl⟩
+      · exact Or.inr ⟨f, x, q, hm, hq, rfl⟩
+
+open Pfl.FS.Lem in
+theorem mem_factsL {fs : List (String × FS)} (hnd : (fs.map (·.1)).Nodup) (p : List String) (v : String) :
+    (p, v) ∈ facts.factsL fs ↔ ∃ f x q, lookup f fs = some x ∧ (q, v) ∈ facts x ∧ p = f :: q := by
+  rw [mem_factsL_mem]
+  constructor
+  · rintro ⟨f, x, q, hm, hq, rfl⟩
+    exact ⟨f, x, q, mem_lookup hnd hm, hq, rfl⟩
+  · rintro ⟨f, x, q, hm, hq, rfl⟩
+    exact ⟨f, x, q, lookup_some_mem hm, hq, rfl⟩
+
+theorem Agree.symm {a b : FS} (h : Agree a b) : Agree b a := by
+  induction h with
+  | unspecL b => exact .unspecR b
+  | unspecR a => exact .unspecL a
+  | atom v w => exact .atom w v
+  | node fs gs _ ih => exact .node gs fs fun f x y hx hy => ih f y x hy hx
+
+theorem Conflict.symm {a b : FS} (h : Conflict a b) : Conflict b a := by
+  obtain ⟨p, v, w, h1, h2, h3⟩ := h
+  exact ⟨p, w, v, h2, h1, fun e => h3 e.symm⟩
+
+open Pfl.FS.Lem in
+/-- all three properties at once, by induction on (a bound on) the size of the second argument -/
+theorem unify_main (n : Nat) : ∀ a b : FS, sizeOf b < n → WT a → WT b → Agree a b →
+    (unify a b = none ↔ Conflict a b) ∧
+    ∀ c, unify a b = some c → WT c ∧ ∀ e, e ∈ facts c ↔ e ∈ facts a ∨ e ∈ facts b := by
+  induction n with
+  | zero => intro a b h; omega
+  | succ n ih =>
+    intro a b hn ha hb hab
+    cases hab with
+    | unspecL =>
+      rw [unify.eq_1]
+      refine ⟨by simp [Conflict, facts], ?_⟩
+      intro c hc; cases hc
+      exact ⟨hb, fun e => by simp [facts]⟩
+    | unspecR =>
+      have hu : unify a .unspec = some a := by cases a <;> simp [unify]
+      rw [hu]
+      refine ⟨by simp [Conflict, facts], ?_⟩
+      intro c hc; cases hc
+      exact ⟨ha, fun e => by simp [facts]⟩
+    | atom v w =>
+      rw [unify.eq_3]
+      by_cases h : v = w
+      · subst h
+        refine ⟨by simp [Conflict, facts], ?_⟩
+        intro c hc
+        simp only [if_true, Option.some.injEq] at hc
+        subst hc
+        exact ⟨ha, fun e => by simp [facts]⟩
+      · refine ⟨?_, by simp [h]⟩
+        simp only [h, if_false, true_iff]
+        exact ⟨[], v, w, by simp [facts], by simp [facts], h⟩
+    | node fs gs hag =>
+      cases ha with | node _ hfs hfw =>
+      cases hb with | node _ hgs hgw =>
+      have IH : ∀ g x y, lookup g fs = some x → lookup g gs = some y →
+          (unify x y = none ↔ Conflict x y) ∧
+          ∀ c, unify x y = some c → WT c ∧ ∀ e, e ∈ facts c ↔ e ∈ facts x ∨ e ∈ facts y := by
+        intro g x y hx hy
+        refine ih x y ?_ (hfw _ (lookup_some_mem hx)) (hgw _ (lookup_some_mem hy)) (hag g x y hx hy)
+        have := sizeOf_lookup hy
+        omega
+      rw [unify.eq_6]
+      refine ⟨?_, ?_⟩
+      · rw [Option.map_eq_none_iff, unifyFields_none_iff gs fs hfs hgs]
+        constructor
+        · rintro ⟨g, x, y, hx, hy, hu⟩
+          obtain ⟨p, v, w, h1, h2, h3⟩ := (IH g x y hx hy).1.1 hu
+          refine ⟨g :: p, v, w, ?_, ?_, h3⟩
+          · simp only [facts]; exact (mem_factsL hfs _ _).2 ⟨g, x, p, hx, h1, rfl⟩
+          · simp only [facts]; exact (mem_factsL hgs _ _).2 ⟨g, y, p, hy, h2, rfl⟩
+        · rintro ⟨p, v, w, h1, h2, h3⟩
+          simp only [facts] at h1 h2
+          obtain ⟨f, x, q, hx, hq, rfl⟩ := (mem_factsL hfs _ _).1 h1
+          obtain ⟨f', y, q', hy, hq', heq⟩ := (mem_factsL hgs _ _).1 h2
+          cases heq
+          exact ⟨f, x, y, hx, hy, (IH f x y hx hy).1.2 ⟨q, v, w, hq, hq', h3⟩⟩
+      · intro c hc
+        rw [Option.map_eq_some_iff] at hc
+        obtain ⟨hs, hhs, rfl⟩ := hc
+        obtain ⟨hnd, hlk⟩ := unifyFields_spec gs fs hs hfs hgs hhs
+        refine ⟨WT.node hs hnd ?_, ?_⟩
+        · rintro ⟨f, z⟩ hm
+          have hz := mem_lookup hnd hm
+          rw [hlk f] at hz
+          cases hx : lookup f fs with
+          | none =>
+            rw [hx] at hz
+            simp only [mergeOpt] at hz
+            exact hgw _ (lookup_some_mem hz)
+          | some x =>
+            cases hy : lookup f gs with
+            | none =>
+              rw [hx, hy] at hz
+              simp only [mergeOpt, Option.some.injEq] at hz
+              subst hz
+              exact hfw _ (lookup_some_mem hx)
+            | some y =>
+              rw [hx, hy] at hz
+              simp only [mergeOpt] at hz
+              exact ((IH f x y hx hy).2 z hz).1
+        · rintro ⟨p, v⟩
+          simp only [facts]
+          rw [mem_factsL hnd, mem_factsL hfs, mem_factsL hgs]
+          constructor
+          · rintro ⟨f, z, q, hz, hq, rfl⟩
+            rw [hlk f] at hz
+            cases hx : lookup f fs with
+            | none =>
+              rw [hx] at hz
+              simp only [mergeOpt] at hz
+              exact Or.inr ⟨f, z, q, hz, hq, rfl⟩
+            | some x =>
+              cases hy : lookup f gs with
+              | none =>
+                rw [hx, hy] at hz
+                simp only [mergeOpt, Option.some.injEq] at hz
+                subst hz
+                exact Or.inl ⟨f, x, q, hx, hq, rfl⟩
+              | some y =>
+                rw [hx, hy] at hz
+                simp only [mergeOpt] at hz
+                rcases (((IH f x y hx hy).2 z hz).2 (q, v)).1 hq with h | h
+                · exact Or.inl ⟨f, x, q, hx, h, rfl⟩
+                · exact Or.inr ⟨f, y, q, hy, h, rfl⟩
+          · have hsome : ∀ f x y, lookup f fs = some x → lookup f gs = some y →
+                ∃ z, unify x y = some z := by
+              intro f x y hx hy
+              cases hu : unify x y with
+              | some z => exact ⟨z, rfl⟩
+              | none =>
+                have : unifyFields fs gs = none :=
+                  (unifyFields_none_iff gs fs hfs hgs).2 ⟨f, x, y, hx, hy, hu⟩
+                rw [this] at hhs; cases hhs
+            rintro (⟨f, x, q, hx, hq, rfl⟩ | ⟨f, y, q, hy, hq, rfl⟩)
+            · cases hy : lookup f gs with
+              | none =>
+                exact ⟨f, x, q, by rw [hlk f, hx, hy]; rfl, hq, rfl⟩
+              | some y =>
+                obtain ⟨z, hz⟩ := hsome f x y hx hy
+                refine ⟨f, z, q, by rw [hlk f, hx, hy]; exact hz, ?_, rfl⟩
+                exact (((IH f x y hx hy).2 z hz).2 (q, v)).2 (Or.inl hq)
+            · cases hx : lookup f fs with
+              | none =>
+                exact ⟨f, y, q, by rw [hlk f, hx, hy]; rfl, hq, rfl⟩
+              | some x =>
+                obtain ⟨z, hz⟩ := hsome f x y hx hy
+                refine ⟨f, z, q, by rw [hlk f, hx, hy]; exact hz, ?_, rfl⟩
+                exact (((IH f x y hx hy).2 z hz).2 (q, v)).2 (Or.inr hq)
+
 theorem unify_none_iff (a b : FS) (ha : WT a) (hb : WT b) (hab : Agree a b) :
-    unify a b = none ↔ Conflict a b := by
-  sorry
+    unify a b = none ↔ Conflict a b :=
+  (unify_main (sizeOf b + 1) a b (Nat.lt_succ_self _) ha hb hab).1
 
 theorem unify_facts (a b c : FS) (ha : WT a) (hb : WT b) (hab : Agree a b) (h : unify a b = some c)
-    (e : List String × String) : e ∈ facts c ↔ e ∈ facts a ∨ e ∈ facts b := by
-  sorry
+    (e : List String × String) : e ∈ facts c ↔ e ∈ facts a ∨ e ∈ facts b :=
+  ((unify_main (sizeOf b + 1) a b (Nat.lt_succ_self _) ha hb hab).2 c h).2 e
 
-theorem unify_wt (a b c : FS) (ha : WT a) (hb : WT b) (hab : Agree a b) (h : unify a b = some c) : WT c := by
-  sorry
+theorem unify_wt (a b c : FS) (ha : WT a) (hb : WT b) (hab : Agree a b) (h : unify a b = some c) : WT c :=
+  ((unify_main (sizeOf b + 1) a b (Nat.lt_succ_self _) ha hb hab).2 c h).1
 
 /-- independence of the argument order, up to the information carried -/
 theorem unify_comm (a b : FS) (ha : WT a) (hb : WT b) (hab : Agree a b) :
     (unify a b = none ↔ unify b a = none) ∧
     ∀ c d, unify a b = some c → unify b a = some d → ∀ e, e ∈ facts c ↔ e ∈ facts d := by
-  sorry
+  refine ⟨?_, ?_⟩
+  · rw [unify_none_iff a b ha hb hab, unify_none_iff b a hb ha hab.symm]
+    exact ⟨Conflict.symm, Conflict.symm⟩
+  · intro c d hc hd e
+    rw [unify_facts a b c ha hb hab hc, unify_facts b a d hb ha hab.symm hd]
+    exact Or.comm
 
 end FS
 end Pfl
